@@ -54,6 +54,11 @@ F = {
     'C19-F10': ('_type_params -> _arglikes on the formatted route keeps the element order: `**P, T` / `**P, *Ts` become `**P, T` / '
                 '`**P, *Ts` argument lists, which are not valid call arguments (returned source does not parse as _arglikes)',
                 'C19|_type_params->_arglikes|x35/fst|no-parse'),
+    'C19-F11': ('a container operand with a trailing comment line (`a, b  # line\\n# post` as _arglikes / arguments / _withitems / '
+                '_type_params / _pattern_attrlikes / _decorator_list / _comprehension_ifs) coerced to _Assign_targets on the formatted '
+                'route ends in a line continuation followed by the comment line (`a = b = \\\\\\n# post`): the returned source does not parse '
+                'as _Assign_targets',
+                'C19|_arglikes->_Assign_targets|t1/fst|no-parse'),
 }
 
 
@@ -94,6 +99,8 @@ def rule(sig, w):
         return 'C19-F9'
     if cls == 'no-parse' and parts[1] == '_type_params->_arglikes':
         return 'C19-F10'
+    if cls == 'no-parse' and parts[1].endswith('->_Assign_targets') and parts[2].startswith('t') and '# post' in src:
+        return 'C19-F11'
     return None
 
 
